@@ -7,7 +7,10 @@ use crate::report::*;
 use crate::util::*;
 use charset_normalizer_rs::entity::CharsetMatches;
 
+pub mod c01;
+pub mod c04;
 pub mod c05;
+pub mod c07;
 
 pub struct Ctx<'a> {
     pub rep: &'a mut Report,
@@ -44,7 +47,7 @@ pub trait DetectProp {
         }
     }
     /// cases that always run first (minimised past failures, boundary cases)
-    fn directed(&self) -> Vec<Case> {
+    fn directed(&self, _thorough: bool) -> Vec<Case> {
         vec![]
     }
 }
@@ -100,7 +103,7 @@ pub fn run_detect_prop(p: &dyn DetectProp, thorough: bool, seed: u64, replay: Op
         return rep;
     }
     let corpus = corpus(if thorough { 400_000 } else { 60_000 });
-    for case in p.directed() {
+    for case in p.directed(thorough) {
         run_case(p, &mut cx, &case);
     }
     let mut rng = Rng::new(seed);
@@ -115,7 +118,10 @@ pub fn run_detect_prop(p: &dyn DetectProp, thorough: bool, seed: u64, replay: Op
 
 pub fn by_id(id: &str) -> Option<Box<dyn DetectProp>> {
     match id {
+        "C01" => Some(Box::new(c01::C01)),
+        "C04" => Some(Box::new(c04::C04)),
         "C05" => Some(Box::new(c05::C05)),
+        "C07" => Some(Box::new(c07::C07)),
         _ => None,
     }
 }
